@@ -288,39 +288,80 @@ def r3_sink(chk, fx):
 
 
 def r4_asset(chk, fx):
+    """The unknown-as-set error of the initial query propagates: when pipeline_from_initial fails, the resolver's result is that error
+    (never Ok(empty)); the responses are read only when it succeeded.  Decided by abstract interpretation of the resolver."""
+    from vlib import absint as A
     cands = [n for n in fx.thir if n.startswith("<bgpfu::query::RpslEvaluator as rpsl::expr::eval::Resolver<'_, rpsl::names::AsSet")
-             and n.endswith("::resolve::{closure#0}")]
+             and n.endswith("::resolve")]
     if len(cands) != 1:
-        raise F.AnchorLost("as-set resolver closure not found (%d)" % len(cands))
-    t = fx.thir[cands[0]]
-    chk.analysed(t["def"])
-    fns, recv = chain(T.user_body(t))
-    short = [T.short(f, 2) for f in fns]
-    ok = len(fns) >= 2 and fns[0].endswith("Result::<T, E>::and_then") and fns[1].endswith("pipeline_from_initial")
-    chk.instance("C03/R4", "as-set resolver: responses are consumed only via and_then on pipeline_from_initial (chain: %s)" % " <- ".join(short),
-                 t["def"], loc_of(t.get("sp")), holds=ok, key="C03/R4 as-set-resolver chain")
-    args = T.expr_str(T.user_body(t))
-    chk.instance("C03/R4", "the initial query is AsSetMembersRecursive(as_set)", t["def"], loc_of(t.get("sp")),
-                 holds="Query::AsSetMembersRecursive(Clone::clone(as_set))" in args.replace("&", "").replace("*", ""),
+        raise F.AnchorLost("as-set resolver not found (%d)" % len(cands))
+    rn = cands[0]
+    t = fx.thir[rn]
+    chk.analysed(rn)
+
+    def hook(fn, args, node, interp):
+        s2 = T.short(fn, 2)
+        if s2 == "RpslEvaluator::with_connection":
+            # run the closure with a symbolic connection; the wrapper's own behaviour is C17's subject
+            return interp.apply(args[1], [args[0], ("sym", "CONN")], node, 0)
+        if s2 == "Connection::pipeline_from_initial":
+            interp.trace.append(("call", fn, tuple(args), node.get("sp")))
+            return ("sym", "INITIAL")
+        return None
+    it = A.Interp(fx, hook=hook, crates=("bgpfu",))
+    it.model_iterators = False
+    paths = it.explore(rn)
+    n_ok = n_err = 0
+    bad = []
+    q_ok = True
+    for p in paths:
+        init = p.calls("Connection::pipeline_from_initial")
+        if len(init) != 1:
+            bad.append("pipeline_from_initial called %d times on a path" % len(init))
+            continue
+        q = init[0][2][1] if len(init[0][2]) > 1 else None
+        if not (q is not None and q[0] == "adt" and q[2] == "AsSetMembersRecursive" and "as_set" in A.vstr(q)):
+            q_ok = False
+        kv = p.assume.get("variant:«INITIAL»")
+        reads = p.calls("Pipeline::responses")
+        if kv == "Err":
+            n_err += 1
+            if not (A.is_res(p.ret) and p.ret[2] == "Err" and A.mentions(p.ret, lambda x: x == ("payload", ("sym", "INITIAL"), "Err", "0"))):
+                bad.append("initial query failed but the resolver returns %s" % A.vstr(p.ret)[:100])
+            if reads:
+                bad.append("responses read although the initial query failed")
+        elif kv == "Ok":
+            n_ok += 1
+            if not reads:
+                bad.append("initial query succeeded but no response is read")
+    ok = n_ok >= 1 and n_err >= 1 and not bad
+    chk.instance("C03/R4", "as-set resolver: a failed initial query (unknown as-set) is returned as the error; responses are read only after it succeeded",
+                 rn, loc_of(t.get("sp")), holds=ok, key="C03/R4 as-set-resolver chain", detail="; ".join(bad[:3]) or None)
+    chk.instance("C03/R4", "the initial query is AsSetMembersRecursive(as_set)", rn, loc_of(t.get("sp")), holds=q_ok and (n_ok + n_err) > 0,
                  key="C03/R4 as-set-resolver initial-query")
 
 
 def r5_annotation(chk, fx):
+    """A `bgpfu-fltr:` annotation whose expression does not parse must influence the reader's result (an error, or a 'managed but
+    unevaluable' candidate) — if it is only logged the statement silently drops out of the candidates and compare() deletes the
+    installed policy.  Abstract interpretation of one iteration of the attribute scan: on the paths where the MpFilterExpr parse
+    is assumed to fail, something other than logging has to happen (an assignment, a return, a break)."""
+    from vlib import absint as A
     t = fx.thir_body(READ_CAND)
     chk.analysed(t["def"])
-    body = T.user_body(t)
-    ms = [m for m in T.find(body, "Match") if any("Result::Err" in T.pat_str(a["pat"]) and "Option::Some" in T.pat_str(a["pat"]) for a in m["arms"])
-          and "rpsl::error::ParseError" in (T.peel(m["scrut"]).get("ty") or "")]
-    if len(ms) != 1:
-        # the parse may be handled in another form: look for any handling of MpFilterExpr parse errors
-        chk.instance("C03/R5", "annotation parse result is handled by a match on (raw, raw.parse())", t["def"], loc_of(t.get("sp")),
+    it = A.Interp(fx, crates=(AGENT,), max_paths=4000)
+    paths = it.explore(READ_CAND)
+    fails = []
+    for p in paths:
+        keys = [k for k, v in p.assume.items() if k.startswith("variant:str::parse(") and v == "Err"]
+        if keys:
+            fails.append(p)
+    if not fails:
+        chk.instance("C03/R5", "annotation parse result is handled (a path on which the expression fails to parse exists)", t["def"], loc_of(t.get("sp")),
                      holds=False, key="C03/R5 Maybe<Candidate>::read_xml unrecognised-form")
         return
-    for a in ms[0]["arms"]:
-        p = T.pat_str(a["pat"])
-        if "Result::Err" in p:
-            eff = [x for x in T.walk(a["body"]) if x.get("k") in ("Assign", "AssignOp", "Return", "Break", "Try")
-                   or (x.get("k") == "Call" and not (x.get("sp") or {}).get("m"))]
-            chk.instance("C03/R5", "a malformed bgpfu-fltr: annotation influences the result (not only logged)", t["def"],
-                         loc_of(a.get("sp")), holds=bool(eff), key="C03/R5 Maybe<Candidate>::read_xml malformed-annotation-only-logged",
-                         detail="the statement drops out of the candidates; compare then sees (absent, present) and deletes the installed policy")
+    only_logged = [p for p in fails if p.end == "iter-end" and not p.assigns()]
+    chk.instance("C03/R5", "a malformed bgpfu-fltr: annotation influences the result (not only logged) — %d failing-parse paths, %d without any effect" % (
+        len(fails), len(only_logged)), t["def"], loc_of(t.get("sp")), holds=not only_logged,
+        key="C03/R5 Maybe<Candidate>::read_xml malformed-annotation-only-logged",
+        detail="the statement drops out of the candidates; compare then sees (absent, present) and deletes the installed policy")
